@@ -128,6 +128,14 @@ def rule_c(repo, chk):
             chk.ob('C10.c', ok, ic, '%s: the fallback imports import_path + (from_import_name,)' % q)
             ok = norm(ic.args[2]) == 'module_context' and norm(ic.args[3]) == 'level'
             chk.ob('C10.c', ok, ic, '%s: with the same module context and relative level' % q)
+    fg = repo.find(IMP, 'goto_import')
+    for ic in calls_in(fg, 'Importer'):
+        def attr_found_nothing(e, pol):
+            if norm(e) == 'names' and pol is False:
+                return True
+            return pol is True and isinstance(e, ast.Call) and call_name(e) == 'any' and 'tree_name is tree_name' in norm(e)
+        w = gate(fg, ic, attr_found_nothing)
+        chk.ob('C10.c', w is None, ic, 'goto_import falls back to the sub-module only when the attribute lookup found nothing (or only the import itself)', w or '')
     fi = repo.find(IMP, 'infer_import')
     imp_call = [c for c in calls_in(fi, 'Importer')]
     if imp_call:
